@@ -206,6 +206,65 @@ def normalise_module(module_ast):
     return n
 
 
+def _method_sigs(module_ast):
+    sigs = {}
+    for c in [n for n in ast.walk(module_ast) if isinstance(n, ast.ClassDef)]:
+        for f in c.body:
+            if isinstance(f, (ast.FunctionDef, ast.AsyncFunctionDef)):
+                a = f.args
+                if a.args and a.args[0].arg in ('self', 'cls') and not a.vararg and not a.posonlyargs:
+                    sigs.setdefault(f.name, set()).add(tuple(x.arg for x in a.args[1:]))
+                else:
+                    sigs.setdefault(f.name, set()).add(None)
+    return sigs
+
+
+def normalise_calls(modules):
+    """ Keyword arguments of calls to repo methods become positional where they name the leading parameters in order
+    ("self.m(a=1, b=2)" -> "self.m(1, 2)"): how a call spells its arguments is not part of any property, and the rules
+    read arguments by position.  The signature is taken from the classes of the same module when the method name has
+    one signature there, else from the whole tree when it has one signature there; otherwise the call is left alone.
+    :param modules: {rel: module ast}  (edited in place) """
+    local = {rel: _method_sigs(m) for rel, m in modules.items()}
+    glob = {}
+    for sigs in local.values():
+        for name, ss in sigs.items():
+            glob.setdefault(name, set()).update(ss)
+    n = 0
+    for rel, m in modules.items():
+        for call in [x for x in ast.walk(m) if isinstance(x, ast.Call) and x.keywords and isinstance(x.func, ast.Attribute)]:
+            name = call.func.attr
+            cand = local[rel].get(name)
+            if not cand or len(cand) != 1:
+                cand = glob.get(name)
+            if not cand or len(cand) != 1:
+                continue
+            params = next(iter(cand))
+            if params is None or any(isinstance(a, ast.Starred) for a in call.args) or any(k.arg is None for k in call.keywords):
+                continue
+            # Base.m(self, ...) passes self explicitly
+            recv = call.func.value
+            off = 1 if (isinstance(recv, ast.Name) and recv.id[:1].isupper() and call.args and isinstance(call.args[0], ast.Name) and call.args[0].id == 'self') else 0
+            npos = len(call.args) - off
+            if npos < 0 or npos > len(params):
+                continue
+            kws = {k.arg: k for k in call.keywords}
+            moved = []
+            for pname in params[npos:]:
+                if pname in kws:
+                    moved.append(kws.pop(pname))
+                else:
+                    break
+            if not moved:
+                continue
+            for k in moved:
+                k.value._parent = call
+                call.args.append(k.value)
+            call.keywords = [k for k in call.keywords if k.arg in kws]
+            n += 1
+    return n
+
+
 def load_reference():
     try:
         with open(REF_PATH) as infile:
